@@ -109,7 +109,7 @@ def _site_props(T):
     if not sp:
         return None
     if isinstance(sp, dict):
-        sp = [sp]
+        sp = [sp] * int(len(T.coords))  # one dict for all frames == the same dict per frame
     out = []
     for d in sp:
         if d is None:
@@ -293,9 +293,9 @@ def generate(run_seed: int, tier: str = 'quick', stream: str = 'seq') -> dict:
             last_save.update(slot=slot, src=src)
             ops.append({
                 'op': 'SAVE', 'src': src, 'slot': slot,
-                'derive': rng.pick([None, None, 'slice', 'filter', 'disp', 'flip_inplace', 'extend_inplace', 'slice', 'rich_metadata']), 'fault': f,
+                'derive': rng.pick([None, None, 'slice', 'filter', 'disp', 'flip_inplace', 'extend_inplace', 'slice', 'rich_metadata', 'perframe_props']), 'fault': f,
             })
-            if ops[-1]['derive'] == 'rich_metadata':
+            if ops[-1]['derive'] in ('rich_metadata', 'perframe_props'):
                 ops[-1]['seed'] = rng.getrandbits(16)
 
             saves += 1
@@ -883,6 +883,19 @@ class Run:
             elif dv == 'rich_metadata':  # free-form annotations of many types must survive the round trip as well
                 obj = copy.deepcopy(src)
                 obj.metadata = dict(obj.metadata, **rich_metadata(op.get('seed', 0)))
+            elif dv == 'perframe_props':  # a longer trajectory with per-frame site properties that differ on a few frames only
+                from pymatgen.core import Element, Lattice
+
+                from gemdat import Trajectory
+
+                g = np.random.default_rng(op.get('seed', 0))
+                nf = int(g.integers(200, 420))
+                na = 2
+                props = [{'magmom': [1.0, -1.0], 'tag': ['a', 'b']} for _ in range(nf)]
+                for fr in g.integers(1, nf - 1, size=int(g.integers(1, 4))):
+                    props[int(fr)] = {'magmom': [-1.0, 1.0], 'tag': ['a', 'b']}
+                obj = Trajectory(species=[Element('Li'), Element('S')], coords=g.random((nf, na, 3)), lattice=Lattice.cubic(5.0), time_step=1e-15,
+                                 metadata={'temperature': 300}, site_properties=props)
             elif dv == 'sized':  # serialised size placed on / next to a power of two (buffer and chunk boundaries)
                 def measure(o):
                     self.fs.begin_op(None)
